@@ -60,6 +60,7 @@ def run(ctx, R, tier):
     inflight(F, R)
     dt_rule(F, R)
     dt_handed_on(F, R)
+    rate_sized_agree(F, R)
     shared_rate_single(F, R)
     rate_bounds(F, R)
     cursors(F, R)
@@ -235,6 +236,42 @@ def cached(F, R):
 def pretty_rv(b, rv):
     from ..paths import describe_rv
     return describe_rv(b, rv)
+
+
+def rate_sized_agree(F, R, rule='B.C16.pair'):
+    """'Delay times keep their values at every rate and across a change of rate': what `init` stores from the sample rate and
+    what `on_change_sample_rate` stores from it into the same field are the same expression - a line sized as
+    `delay_time x rate` (at least one frame) by both.  A floor, a rounding or a unit that only one of the two applies makes
+    the configured time depend on whether the rate was there from the start or arrived later."""
+    n = 0
+    for im in F.impls:
+        if im['trait'] != 'effect::Effect' or im['self_ty'].startswith('std::boxed::Box'):
+            continue
+        items = {it['name']: it['path'] for it in im['items']}
+        bi, bc = F.body(items.get('init', '')), F.body(items.get('on_change_sample_rate', ''))
+        if bi is None or bc is None:
+            continue
+
+        def stores(b):
+            out = {}
+            for bb, si, s in b.stmts():
+                if s['k'] == 'assign' and s['lhs']['p'] and pretty_place(b, s['lhs']).startswith('(*self).'):
+                    d = describe_rv_(b, s, bb)
+                    if 'sample_rate' in d:
+                        out.setdefault(pretty_place(b, s['lhs']), set()).add(d)
+            return out
+        si_, sc_ = stores(bi), stores(bc)
+        for fld in sorted(set(si_) & set(sc_)):
+            n += 1
+            R.check(si_[fld] == sc_[fld], rule, '%s|%s|sized-alike' % (im['self_ty'], fld.split('.')[-1]),
+                    '%s: init stores %s into %s, on_change_sample_rate stores %s: the same setting gives different behaviour depending on when the rate became known'
+                    % (im['self_ty'], sorted(si_[fld])[0][:110], fld, sorted(sc_[fld])[0][:110]), detail={'field': fld}, where=bi.file)
+    R.floor(rule + '.sized-alike', n, 1)
+
+
+def describe_rv_(b, s, bb):
+    from ..paths import describe_rv
+    return describe_rv(b, s['rv'], depth=8, at=bb)
 
 
 def dt_handed_on(F, R, rule='B.C16.dt'):
